@@ -462,6 +462,9 @@ GUARDS = [
     ("chooseBetter", "radsecproxy.c", "choosesrvconf", ("if_mentioning", ["lostrqs", "bestlostrqs"]), {"server.servers.lostrqs": "lost", "bestlostrqs": "best"}, ["lost", "best"]),
     ("asciiEscape", "radsecproxy.c", "radattr2ascii", ("if_mentioning", ["v", "i"]), {"attr.v[i]": "c"}, ["c"]),
     # C20: the character test of adddynamicrealmserver; isalnum is left to the tie theorem (Rsp.Tie.isalnumI)
+    # C17/C02: a UDP association is a (listening socket, source address+port) pair - the scan over a block's clients passes over those of
+    # another socket before anything else is looked at
+    ("udpScanOtherSocket", "udp.c", "radudpget", ("if_mentioning", ["s", "sock"]), {"s": "s", "c.sock": "csock"}, ["s", "csock"]),
     ("dynRealmBad", "radsecproxy.c", "adddynamicrealmserver", ("if_mentioning", ["s", "isalnum"]), {"*s": "c", "isalnum(*s)": "(Rsp.Tie.isalnumI c)"}, ["c"]),
 ]
 
